@@ -1267,7 +1267,6 @@ def correspondence(ctx: core.Ctx) -> None:
         run_rfc822(ctx, [gen_message(ctx.rng) for _ in range(ctx.budget(600, 20000))])
         total = ctx.budget(300, 10000)
         chunk = 400
-        metas: list[str] = []
         done = 0
         while done < total:
             cases = gen_cases(ctx, min(chunk, total - done))
@@ -1276,7 +1275,6 @@ def correspondence(ctx: core.Ctx) -> None:
         run_cases(ctx, finding_cases(), "findings")
         run_malformed(ctx, fixed_malformed(), "malformed-fixed")
         run_malformed(ctx, gen_malformed(ctx, ctx.budget(60, 1500)))
-        del metas
     finally:
         cleanup()
 
@@ -1284,18 +1282,17 @@ def correspondence(ctx: core.Ctx) -> None:
 def search(ctx: core.Ctx) -> None:
     """proof or correspondence broke: look harder for a pyproject on which the property itself fails"""
     try:
-        inputs = [dg["input"] for dg in ctx.disagreements if isinstance(dg.get("input"), dict) and "doc" in dg["input"]]
-        extra: list[dict[str, Any]] = []
-        for j, inp in enumerate(inputs[:50]):
-            # re-run the disagreeing documents through the oracle needs their description; they were generated: regenerate instead
-            _ = (j, inp)
+        # the generated streams are the search space (the disagreeing documents came from them); the fixed witnesses first
+        run_cases(ctx, finding_cases(), "search-findings")
+        run_malformed(ctx, fixed_malformed(), "search-malformed")
+        ctx.violations[:] = [v for v in ctx.violations if v.key not in core.known_keys(PROP)]
         total = 1500
         done = 0
         while done < total and not ctx.violations:
             cases = gen_cases(ctx, 300)
             run_cases(ctx, cases, "search")
             done += len(cases)
-        del extra
+            ctx.violations[:] = [v for v in ctx.violations if v.key not in core.known_keys(PROP)]
     finally:
         cleanup()
 
